@@ -20,13 +20,25 @@ KeysFor(gs) == {gk \in 0..Len(gs) : KeyOk(gs, gk)}
 KeyChoices(gs) == LET gks == KeysFor(gs) \ {0} IN
                   {0} \cup (IF gks = {} THEN {} ELSE {CHOOSE gk \in gks : \A gj \in gks : gk <= gj, CHOOSE gk \in gks : \A gj \in gks : gk >= gj})
 
-Shape(gs, gk, gn, gc) == [kind |-> "dbc", schema |-> gs, key |-> gk, n |-> gn, strcls |-> gc,
-                          rs |-> RecordSize(gs), fc |-> FieldCount(gs), offs |-> FieldOffsets(gs),
-                          size0 |-> FileSize(gn, RecordSize(gs), 0),
-                          routes |-> IF gn <= 128 THEN SetToSeq(RoutesFor(gn)) ELSE <<>>,
-                          \* the kinds of string reference the input table uses, in the order the builder cycles through them
-                          refkinds |-> IF (Len(gs) + gk + gn + FieldCount(gs) + Seed) % 2 = 0 THEN <<"start">>
-                                       ELSE <<"start", "inside", "nul", "zero", "last", "inside">>]
+NameClsSeq == <<"distinct", "dupAdjacent", "dupApart", "allEqual">>
+KeyOrderSeq == <<"random", "ascDense", "ascGaps", "desc", "permSpan", "dupSpan">>
+KeyBase(gs, gk) == IF gk > 0 /\ gs[gk].ty = "Int32" THEN -3 ELSE 10          \* Int32 columns cross zero
+\* gko = "random": the driver draws keys (duplicates, unsorted); otherwise the key column is the specification's
+ShapeK(gs, gk, gn, gc, gko) ==
+    LET gh == Len(gs) + gk + gn + FieldCount(gs) + Seed
+        gkeys == IF gko = "random" \/ gk = 0 THEN <<>> ELSE KeyColumnOf(gko, gn, KeyBase(gs, gk)) IN
+    [kind |-> "dbc", schema |-> gs, key |-> gk, n |-> gn, strcls |-> gc,
+     rs |-> RecordSize(gs), fc |-> FieldCount(gs), offs |-> FieldOffsets(gs),
+     size0 |-> FileSize(gn, RecordSize(gs), 0),
+     routes |-> IF gn <= 128 THEN SetToSeq(RoutesFor(gn)) ELSE <<>>,
+     \* the kinds of string reference the input table uses, in the order the builder cycles through them
+     refkinds |-> IF gh % 2 = 0 THEN <<"start">> ELSE <<"start", "inside", "nul", "zero", "last", "inside">>,
+     \* column names (labels only): class rotates with the shape
+     namecls |-> NameClsSeq[((gh \div 2) % 4) + 1], fnames |-> FieldNames(NameClsSeq[((gh \div 2) % 4) + 1], Len(gs)),
+     keyorder |-> IF gk = 0 THEN "none" ELSE gko, keys |-> gkeys,
+     absent |-> IF gkeys = <<>> THEN <<>> ELSE SetToSeq(AbsentProbes(gkeys, KeyBase(gs, gk)))]
+Shape(gs, gk, gn, gc) ==
+    ShapeK(gs, gk, gn, gc, IF gk > 0 /\ gn >= 4 /\ gn <= 128 THEN KeyOrderSeq[((Len(gs) + gn + gk + Seed) % 6) + 1] ELSE "random")
 
 One == {<<gf>> : gf \in FieldSet}
 Two == {<<gf, gg>> : gf \in FieldSet, gg \in FieldSet}
@@ -49,13 +61,17 @@ LongShapes == {Shape(LongSchema(gl, gj, KeyPos(gl, gq), gkt), KeyPos(gl, gq), gn
 BigShapes == {Shape(LongSchema(gl, 3, gkp, gkt), gkp, 10000, Cls(gl + gkp)) :
                  gl \in IF Thorough THEN {3, 8, 24} ELSE {6}, gkp \in IF Thorough THEN {1, 3} ELSE {2}, gkt \in {"UInt32", "Int32"}}
 
+\* key-order slice: every order class x table sizes 4, 5, 9, 100 x key first / middle / last x both key types
+KeyShapes == {ShapeK(LongSchema(6, gj, gkp, gkt), gkp, gn, Cls(gj + gkp + gn), gko) :
+                gj \in 0..1, gkp \in {1, 3, 6}, gkt \in {"UInt32", "Int32"}, gn \in {4, 5, 9, 100}, gko \in KeyOrders}
+
 Small(gschemas, gns) == UNION {{Shape(gs, gk, gn, Cls(Len(gs) + gk + gn + FieldCount(gs))) : gk \in KeyChoices(gs), gn \in gns} : gs \in gschemas}
 
 Shapes == Small(One, {0, 1, 2, 100})
           \cup Small(Two, IF Thorough THEN {0, 2, 3} ELSE {2})
           \cup Small(Three(IF Thorough THEN 1 ELSE 41), {2})
           \cup Small(MidSchemas, {3})
-          \cup LongShapes \cup BigShapes
+          \cup LongShapes \cup BigShapes \cup KeyShapes
 
 Cases == SetToSeq(Shapes)
 GInit == vsch = 0 /\ vkey = 0 /\ vrecs = 0 /\ vlen = 0 /\ vhdr = 0 /\ vout = 0 /\ vblock = 0 /\ vrefs = 0 /\ vpc = "gen" /\ vdev = 0 /\ vread = 0 /\ vkmap = 0
